@@ -142,6 +142,10 @@ impl Property for C06 {
         let case: C06Case = serde_json::from_value(case.clone()).expect("C06 case");
         let base = normalise(&case.base);
         let mut r = RunResult::default();
+        if crate::props::statq::too_big_for_refsem(&base) {
+            r.skipped = Some("more live arguments than the reference semantics enumerates (shrinker artefact)".into());
+            return r;
+        }
         let out0 = exec_static(&base, ExecOpts::default());
         let mut truth = Truth::of(&out0.store);
         r.digest = out0.hub.borrow().digest;
